@@ -4,6 +4,8 @@ from lib import hexs
 MODULE = "DtailModel.Props.C04"
 # scripts with real waits: a disagreement counts only if it reproduces when re-run alone (flake policy, DESIGN 2.3)
 TIMED_OPS = ("c04.tail",)
+# translated packages (tie G) this property's theorems rest on
+GEN_UNITS = ("Fs",)
 GROUPS = ["C04", "GEN"]
 LOGGER = "none"
 JOBS = 16
